@@ -559,7 +559,19 @@ func runC06(c *Ctx) error {
 				}
 			}
 			for k, n := 0, 3+c.Rng.IntN(5); k < n; k++ {
-				switch c.Rng.IntN(4) {
+				switch c.Rng.IntN(5) {
+				case 4:
+					// time passes without traffic (11 s: past the error cooldown and the short-lived
+					// limit; 11 min: past the removal limit) and the periodic cleaner runs
+					long := c.Rng.IntN(3) == 0
+					secs := int64(11)
+					if long {
+						secs = 660
+					}
+					R.ro.VerifAgeConnStates(secs)
+					hsteps = append(hsteps, fmt.Sprintf("(HAge %s,false)", coqBool(long)))
+					htrace = append(htrace, fmt.Sprintf("pause(%ds)", secs))
+					sendIn()
 				case 0, 1:
 					sendIn()
 				case 2:
